@@ -28,8 +28,12 @@ impl Operation for NoteOp { type Output = (); }
 pub struct MarkOp { pub serial: u32 }
 impl Operation for MarkOp { type Output = (); }
 
-#[derive(Clone, Serialize, Deserialize, Debug, PartialEq, Eq)]
-pub struct GetOp { pub label: u8 }
+/// `witness`: not part of the protocol (never serialized); lets a drop counter see how long the runtime keeps an
+/// operation - and with it the request future's shared state and callback - alive
+#[derive(Clone, Serialize, Deserialize, Debug)]
+pub struct GetOp { pub label: u8, #[serde(skip)] pub witness: Option<std::sync::Arc<Token>> }
+impl PartialEq for GetOp { fn eq(&self, o: &Self) -> bool { self.label == o.label } }
+impl Eq for GetOp {}
 impl Operation for GetOp { type Output = u64; }
 
 #[derive(Clone, Serialize, Deserialize, Debug, PartialEq, Eq)]
@@ -122,6 +126,7 @@ pub const NSYS: usize = 8;
 pub static CUR_SYS: AtomicUsize = AtomicUsize::new(0);
 pub static CREATED: [AtomicUsize; NSYS] = [const { AtomicUsize::new(0) }; NSYS];
 pub static DROPPED: [AtomicUsize; NSYS] = [const { AtomicUsize::new(0) }; NSYS];
+#[derive(Debug)]
 pub struct Token(usize);
 impl Token {
     pub fn new() -> Self { let s = CUR_SYS.load(Ordering::SeqCst); CREATED[s].fetch_add(1, Ordering::SeqCst); Token(s) }
@@ -154,10 +159,12 @@ pub mod new_app {
             Act::Render => crux_core::render::render(),
             Act::Note(label) => Command::notify_shell(NoteOp { label }).into(),
             Act::Get { label, chain, mark } => Command::new(move |ctx| async move {
-                let _t = token;
+                let tok = std::sync::Arc::new(token);
+                { let abandoned = ctx.request_from_shell(GetOp { label: 250, witness: Some(tok.clone()) }); drop(abandoned); }
+                let _t = tok;
                 for k in 0..=chain {
                     if mark { ctx.notify_shell(MarkOp { serial }); }
-                    let v = ctx.request_from_shell(GetOp { label: label.wrapping_add(k) }).await;
+                    let v = ctx.request_from_shell(GetOp { label: label.wrapping_add(k), witness: None }).await;
                     ctx.send_event(Event::Got { serial, val: v });
                 }
             }),
@@ -277,10 +284,14 @@ pub mod old_app {
                 let ctx = caps.e_get.context.clone();
                 let mctx = caps.z_mark.context.clone();
                 caps.e_get.context.spawn(async move {
-                    let _t = token;
+                    let tok = std::sync::Arc::new(token);
+                    // a request future that is made and abandoned without ever being polled (the other side of a
+                    // select was ready, an early return ...): nothing is sent, and nothing of it may outlive the task
+                    { let abandoned = ctx.request_from_shell(GetOp { label: 250, witness: Some(tok.clone()) }); drop(abandoned); }
+                    let _t = tok;
                     for k in 0..=chain {
                         if mark { mctx.notify_shell(MarkOp { serial }).await; }
-                        let v = ctx.request_from_shell(GetOp { label: label.wrapping_add(k) }).await;
+                        let v = ctx.request_from_shell(GetOp { label: label.wrapping_add(k), witness: None }).await;
                         ctx.update_app(Event::Got { serial, val: v });
                     }
                 });
